@@ -264,3 +264,160 @@ func condMentions(g *core.Graph, v *core.V, obj types.Object) bool {
 	}
 	return false
 }
+
+// callVertices lists the vertices of g containing a call to one of keys
+// (calls inside function literals are ignored), with the call.
+type callV struct {
+	V    *core.V
+	Call *ast.CallExpr
+	Key  string
+}
+
+func callVertices(g *core.Graph, keys ...string) []callV {
+	var out []callV
+	want := map[string]bool{}
+	for _, k := range keys {
+		want[k] = true
+	}
+	for _, v := range g.Vs {
+		if v.AST == nil {
+			continue
+		}
+		for _, cs := range core.CallsIn(g.Info, v.AST, false) {
+			if want[cs.Key] {
+				out = append(out, callV{v, cs.Call, cs.Key})
+			}
+		}
+	}
+	sort.Slice(out, func(i, j int) bool { return out[i].Call.Pos() < out[j].Call.Pos() })
+	return out
+}
+
+// callVerticesSuffix matches callee keys by suffix (e.g. ".scannerFrom").
+func callVerticesSuffix(g *core.Graph, suffixes ...string) []callV {
+	var out []callV
+	for _, v := range g.Vs {
+		if v.AST == nil {
+			continue
+		}
+		for _, cs := range core.CallsIn(g.Info, v.AST, false) {
+			for _, s := range suffixes {
+				if strings.HasSuffix(cs.Key, s) {
+					out = append(out, callV{v, cs.Call, cs.Key})
+				}
+			}
+		}
+	}
+	sort.Slice(out, func(i, j int) bool { return out[i].Call.Pos() < out[j].Call.Pos() })
+	return out
+}
+
+// mapStores lists vertices that store into an element of the map object.
+type storeV struct {
+	V     *core.V
+	Stmt  *ast.AssignStmt
+	Index ast.Expr
+	Value ast.Expr
+}
+
+func mapStores(g *core.Graph, m types.Object) []storeV {
+	var out []storeV
+	for _, v := range g.Vs {
+		as, ok := v.AST.(*ast.AssignStmt)
+		if !ok {
+			continue
+		}
+		for i, l := range as.Lhs {
+			ix, ok := ast.Unparen(l).(*ast.IndexExpr)
+			if !ok || core.ObjOf(g.Info, ix.X) != m {
+				continue
+			}
+			var val ast.Expr
+			if i < len(as.Rhs) {
+				val = as.Rhs[i]
+			}
+			out = append(out, storeV{v, as, ix.Index, val})
+		}
+	}
+	return out
+}
+
+// paramObj returns the object of the named parameter (or receiver) of fn.
+func paramObj(fn *core.Func, name string) types.Object {
+	lists := []*ast.FieldList{fn.Decl.Recv, fn.Decl.Type.Params, fn.Decl.Type.Results}
+	for _, fl := range lists {
+		if fl == nil {
+			continue
+		}
+		for _, f := range fl.List {
+			for _, n := range f.Names {
+				if n.Name == name {
+					return fn.Info().ObjectOf(n)
+				}
+			}
+		}
+	}
+	core.Undecided("%s: parameter %q not found", fn.Key, name)
+	return nil
+}
+
+// isNilCheckOfIndex: atom states m[idx] == nil (or != nil when wantNil is false).
+func atomIsMapEntryNil(info *types.Info, a core.Atom, m types.Object, wantNil bool) (ast.Expr, bool) {
+	c, ok := a.AsCmp()
+	if !ok {
+		return nil, false
+	}
+	l, r := c.L, c.R
+	if core.IsNil(info, l) {
+		l, r = r, l
+	}
+	if !core.IsNil(info, r) {
+		return nil, false
+	}
+	ix, ok := ast.Unparen(l).(*ast.IndexExpr)
+	if !ok || core.ObjOf(info, ix.X) != m {
+		return nil, false
+	}
+	if wantNil && c.Op == token.EQL || !wantNil && c.Op == token.NEQ {
+		return ix.Index, true
+	}
+	return nil, false
+}
+
+// loopHeads returns the loop-head vertices (for/range) of g in source order.
+func loopHeads(g *core.Graph) []*core.V {
+	var out []*core.V
+	for _, v := range g.Vs {
+		if v.Cond == nil {
+			continue
+		}
+		if v.Cond.Range != nil {
+			out = append(out, v)
+			continue
+		}
+		if v.Block != nil && v.Block.Kind.String() == "ForLoop" {
+			out = append(out, v)
+		}
+	}
+	sort.Slice(out, func(i, j int) bool { return condPos(out[i]) < condPos(out[j]) })
+	return out
+}
+
+func condPos(v *core.V) token.Pos {
+	if v.Cond != nil && v.Cond.Range != nil {
+		return v.Cond.Range.Pos()
+	}
+	if v.AST != nil {
+		return v.AST.Pos()
+	}
+	return 0
+}
+
+// fieldOf reports whether e selects field `name` (any owner) and returns the base.
+func selName(e ast.Expr) (ast.Expr, string, bool) {
+	se, ok := ast.Unparen(e).(*ast.SelectorExpr)
+	if !ok {
+		return nil, "", false
+	}
+	return se.X, se.Sel.Name, true
+}
